@@ -312,7 +312,8 @@ def circuit_layer(scan, max_width, gateset="all", symbolic=False):
             if qs:
                 opts += ["one", "rot", "one"]
             if adj_q:
-                opts += ["two", "two", "rot2", "controlled", "two"]
+                opts += ["two", "two", "rot2", "controlled", "two", "qswap",
+                         "bra2"]
         if gateset == "pure":
             opts = [o for o in opts if o in (
                 "one", "rot", "bra", "two", "rot2", "controlled", "swap",
@@ -341,6 +342,12 @@ def circuit_layer(scan, max_width, gateset="all", symbolic=False):
                 else ["X", "Z", "H"]))}
             return {"k": "g", "g": "C", "a": [inner]},\
                 draw(st.sampled_from(adj_q))
+        if kind == "qswap":
+            off = draw(st.sampled_from(adj_q))
+            return {"k": "swap", "l": scan[off], "r": scan[off + 1]}, off
+        if kind == "bra2":
+            return {"k": "g", "g": "Bra", "a": draw(st.sampled_from(
+                [[0, 1], [1, 0]]))}, draw(st.sampled_from(adj_q))
         if kind == "swap":
             off = draw(st.integers(0, len(scan) - 2))
             return {"k": "swap", "l": scan[off], "r": scan[off + 1]}, off
@@ -428,6 +435,12 @@ def zx_layer(scan, max_width):
         kind = draw(st.sampled_from(opts))
         if kind == "H":
             return {"k": "zx", "g": "H"}, draw(st.integers(0, len(scan) - 1))
+        if kind == "qswap":
+            off = draw(st.sampled_from(adj_q))
+            return {"k": "swap", "l": scan[off], "r": scan[off + 1]}, off
+        if kind == "bra2":
+            return {"k": "g", "g": "Bra", "a": draw(st.sampled_from(
+                [[0, 1], [1, 0]]))}, draw(st.sampled_from(adj_q))
         if kind == "swap":
             off = draw(st.integers(0, len(scan) - 2))
             return {"k": "swap", "l": [1, 0], "r": [1, 0]}, off
